@@ -20,6 +20,11 @@ type IG struct {
 	Succ  [][]int
 	Pred  [][]int
 	First map[*ssa.BasicBlock]int
+	// CondOv overrides the condition of threaded copies of an If whose
+	// condition is a boolean phi (see threadBoolPhis); Copies maps the
+	// original If node to its copies.
+	CondOv map[int]ssa.Value
+	Copies map[int][]int
 }
 
 // Edge identifies the K-th out-edge of instruction From (for an If: 0 = true
@@ -57,12 +62,99 @@ func newIG(m *Module, fn *ssa.Function, diverging map[*ssa.Function]bool) *IG {
 			}
 		}
 	}
+	g.threadBoolPhis()
+	g.Pred = make([][]int, len(g.Ins))
 	for n, ss := range g.Succ {
 		for _, s := range ss {
 			g.Pred[s] = append(g.Pred[s], n)
 		}
 	}
 	return g
+}
+
+// threadBoolPhis undoes the materialisation of short-circuit conditions. When a
+// && / || expression is used as a value (case expression of a tagless switch,
+// `ok := a && b; if ok`), go/ssa evaluates it into a boolean phi and branches
+// on the phi in a block that contains nothing else. Such a block is threaded:
+// every incoming edge whose phi operand is a constant goes straight to the
+// corresponding successor, every other incoming edge goes to a private copy of
+// the If that tests the operand itself. The resulting graph has the same paths
+// as if the condition had been written in an if statement.
+func (g *IG) threadBoolPhis() {
+	g.CondOv = map[int]ssa.Value{}
+	g.Copies = map[int][]int{}
+	for _, b := range g.Fn.Blocks {
+		if len(b.Instrs) == 0 || len(b.Succs) != 2 || b.Succs[0] == b.Succs[1] {
+			continue
+		}
+		ifi, ok := b.Instrs[len(b.Instrs)-1].(*ssa.If)
+		if !ok {
+			continue
+		}
+		phi, ok := ifi.Cond.(*ssa.Phi)
+		if !ok || phi.Block() != b {
+			continue
+		}
+		onlyPhis := true
+		for _, in := range b.Instrs[:len(b.Instrs)-1] {
+			if _, isPhi := in.(*ssa.Phi); !isPhi {
+				if _, isDbg := in.(*ssa.DebugRef); !isDbg {
+					onlyPhis = false
+				}
+			}
+		}
+		if !onlyPhis {
+			continue
+		}
+		orig := g.First[b] + len(b.Instrs) - 1
+		tTrue, tFalse := g.First[b.Succs[0]], g.First[b.Succs[1]]
+		entry := g.First[b]
+		used := map[*ssa.BasicBlock]int{}
+		for i, p := range b.Preds {
+			// the edge of p that enters b for the i-th time
+			want := used[p]
+			used[p]++
+			pn := g.First[p] + len(p.Instrs) - 1
+			seen := 0
+			for k, sblk := range p.Succs {
+				if sblk != b {
+					continue
+				}
+				if seen != want {
+					seen++
+					continue
+				}
+				seen++
+				v := phi.Edges[i]
+				if c, isC := constBool(v); isC {
+					if c {
+						g.Succ[pn][k] = tTrue
+					} else {
+						g.Succ[pn][k] = tFalse
+					}
+				} else {
+					n := len(g.Ins)
+					g.Ins = append(g.Ins, ifi)
+					g.Succ = append(g.Succ, []int{tTrue, tFalse})
+					g.CondOv[n] = v
+					g.Copies[orig] = append(g.Copies[orig], n)
+					g.Succ[pn][k] = n
+				}
+				_ = entry
+			}
+		}
+	}
+}
+
+// Cond returns the condition tested by If node n.
+func (g *IG) Cond(n int) ssa.Value {
+	if v, ok := g.CondOv[n]; ok {
+		return v
+	}
+	if ifi, ok := g.Ins[n].(*ssa.If); ok {
+		return ifi.Cond
+	}
+	return nil
 }
 
 // Reach computes forward reachability from the given start nodes. Edges in cut
@@ -290,11 +382,11 @@ func condFact(cond ssa.Value, branch bool) (Fact, bool) {
 
 // EdgeFact returns the fact that holds on out-edge k of If instruction n.
 func (g *IG) EdgeFact(n, k int) (Fact, bool) {
-	ifi, ok := g.Ins[n].(*ssa.If)
+	_, ok := g.Ins[n].(*ssa.If)
 	if !ok || len(g.Succ[n]) != 2 || g.Succ[n][0] == g.Succ[n][1] {
 		return Fact{}, false
 	}
-	f, ok := condFact(ifi.Cond, k == 0)
+	f, ok := condFact(g.Cond(n), k == 0)
 	f.Edge = Edge{n, k}
 	return f, ok
 }
@@ -321,6 +413,28 @@ func (g *IG) FactsAt(target int) []Fact {
 	var out []Fact
 	base := g.Reach([]int{0}, nil, nil)
 	if !base[target] {
+		if cps := g.Copies[target]; len(cps) > 0 {
+			// a threaded If: the facts common to all its copies
+			var common []Fact
+			for i, cn := range cps {
+				fs := g.FactsAt(cn)
+				if i == 0 {
+					common = fs
+					continue
+				}
+				var keep []Fact
+				for _, a := range common {
+					for _, b := range fs {
+						if a.Op == b.Op && a.X == b.X && a.Y == b.Y {
+							keep = append(keep, a)
+							break
+						}
+					}
+				}
+				common = keep
+			}
+			return common
+		}
 		return nil
 	}
 	for _, f := range g.AllEdgeFacts() {
@@ -568,4 +682,136 @@ func loopOf(b *ssa.BasicBlock) (header *ssa.BasicBlock, body map[*ssa.BasicBlock
 		}
 	}
 	return
+}
+
+// ---- return cases ----
+
+// RetCase is one way a function can return: the returned values after
+// flattening result phis of the return block (a single-exit function with a
+// result variable returns phi(v1, v2, ...): one case per incoming edge) and
+// after resolving results that were spilled to locals because of a defer.
+type RetCase struct {
+	Ret  int         // node of the Return instruction
+	Vals []ssa.Value // returned values in this case
+	At   int         // node whose dominating facts hold in this case
+	Edge *Edge       // incoming edge taken in this case (nil: the return itself)
+}
+
+func (g *IG) ReturnCases() []RetCase {
+	var out []RetCase
+	for _, rn := range g.Returns() {
+		ret := g.Ins[rn].(*ssa.Return)
+		if ret.Block() == g.Fn.Recover {
+			continue
+		}
+		vals := make([]ssa.Value, len(ret.Results))
+		for i, r := range ret.Results {
+			vals[i] = g.unspill(rn, r)
+		}
+		out = append(out, g.flattenCase(RetCase{Ret: rn, Vals: vals, At: rn}, ret.Block(), 0)...)
+	}
+	return out
+}
+
+// unspill resolves `*local` where local is a result slot stored in the same
+// block before node n (defer-spilled results).
+func (g *IG) unspill(n int, r ssa.Value) ssa.Value {
+	ld, ok := r.(*ssa.UnOp)
+	if !ok || ld.Op != token.MUL {
+		return r
+	}
+	al, ok := ld.X.(*ssa.Alloc)
+	if !ok {
+		return r
+	}
+	b := g.Ins[n].Block()
+	var last ssa.Value
+	for _, in := range b.Instrs {
+		if in == g.Ins[n] {
+			break
+		}
+		if st, ok := in.(*ssa.Store); ok && st.Addr == ssa.Value(al) {
+			last = st.Val
+		}
+	}
+	if last == nil {
+		return r
+	}
+	return last
+}
+
+func (g *IG) flattenCase(c RetCase, blk *ssa.BasicBlock, depth int) []RetCase {
+	if depth > 3 {
+		return []RetCase{c}
+	}
+	hasPhi := false
+	for _, v := range c.Vals {
+		if phi, ok := v.(*ssa.Phi); ok && phi.Block() == blk {
+			hasPhi = true
+		}
+	}
+	if !hasPhi {
+		return []RetCase{c}
+	}
+	var out []RetCase
+	pe := g.predEdges(blk)
+	for i := range blk.Preds {
+		nc := RetCase{Ret: c.Ret, Vals: make([]ssa.Value, len(c.Vals)), At: pe[i].From}
+		e := pe[i]
+		nc.Edge = &e
+		for j, v := range c.Vals {
+			if phi, ok := v.(*ssa.Phi); ok && phi.Block() == blk {
+				nc.Vals[j] = phi.Edges[i]
+			} else {
+				nc.Vals[j] = v
+			}
+		}
+		out = append(out, g.flattenCase(nc, blk.Preds[i], depth+1)...)
+	}
+	return out
+}
+
+// CaseFacts returns the facts that hold in a return case.
+func (g *IG) CaseFacts(c RetCase) []Fact {
+	facts := g.FactsAt(c.At)
+	if c.Edge != nil {
+		if f, ok := g.EdgeFact(c.Edge.From, c.Edge.K); ok {
+			facts = append(facts, g.expandBoolPhis([]Fact{f}, 0)...)
+		}
+	}
+	return facts
+}
+
+// CaseMustPassBefore: every path that returns through this case passes an
+// instruction satisfying pred.
+func (g *IG) CaseMustPassBefore(c RetCase, pred func(int) bool) bool {
+	// between the merge point and the return itself
+	first := g.First[g.Ins[c.Ret].Block()]
+	for n := first; n < c.Ret; n++ {
+		if pred(n) {
+			return true
+		}
+	}
+	if c.Edge == nil {
+		ok, _ := g.MustPassBefore(c.Ret, pred)
+		return ok
+	}
+	if pred(c.At) {
+		return true
+	}
+	ok, _ := g.MustPassBefore(c.At, pred)
+	if ok {
+		return true
+	}
+	// the case may have been flattened through intermediate merge blocks: nodes between c.At and the return block
+	return false
+}
+
+// CaseReachedFrom: a path exists from node n to the return through this case.
+func (g *IG) CaseReachedFrom(n int, c RetCase) bool {
+	r := g.Reach(g.Succ[n], nil, nil)
+	if c.Edge == nil {
+		return r[c.Ret]
+	}
+	return r[c.At] || n == c.At
 }
